@@ -56,6 +56,10 @@ def sf_iscallable(ev, v):
     return VBool(isinstance(v, VFunc))
 
 
+def sf_getattr(ev, obj, name):
+    return VDyn(ev.eng.slot_get(ev.st, obj.z, name.z))
+
+
 def _cb(ev, fn, kwargs):
     from .execute import callable_id
     names = sorted(k for k in kwargs if k != 'k')
@@ -71,11 +75,37 @@ def _cb(ev, fn, kwargs):
     return ev.eng.cb_apply(ev.st, fid, '_'.join(shape), args)
 
 
+def _inline_lambda(ev, fn, kwargs):
+    """apply a lambda closure created by the code under verification to the given keyword
+    arguments by evaluating its body (pure expression) in the current specification state"""
+    import ast
+    from .specev import SpecEval
+    node, closure = fn.payload
+    env = dict(closure)
+    a = node.args
+    kw = dict(kwargs)
+    kk = kw.pop('k', None)
+    for arg in a.args:
+        if arg.arg in kw:
+            env[arg.arg] = kw.pop(arg.arg)
+        else:
+            raise Untranslated('lambda parameter %s not supplied in spec application' % arg.arg)
+    if kw and not a.kwarg:
+        raise Untranslated('lambda does not accept %s' % list(kw))
+    if a.kwarg:
+        env[a.kwarg.arg] = kk if kk is not None else VKw(ev.eng.empty_kw())
+    return SpecEval(ev.eng, ev.st, {k: v for k, v in env.items() if v is not None}, ev.old).ev(node.body)
+
+
 def sf_cb(ev, fn, **kwargs):
+    if isinstance(fn, VFunc) and fn.tag == 'lambda':
+        return _inline_lambda(ev, fn, kwargs)
     return VDyn(_cb(ev, fn, kwargs)[0])
 
 
 def sf_cb_raises(ev, fn, **kwargs):
+    if isinstance(fn, VFunc) and fn.tag == 'lambda':
+        return VBool(False)
     return VBool(_cb(ev, fn, kwargs)[1])
 
 
@@ -264,6 +294,20 @@ def sf_isinst_cls(ev, v, c):
     if isinstance(v, VRef):
         return VBool(f(v.z, c.z))
     return VBool(z3.And(T.Val.is_VR(v.z), f(T.Val.rval(v.z), c.z)))
+
+
+def sf_owns(ev, f, n):
+    """slot name n of the enclosing packet belongs to field f (its own slot or a scratch slot);
+    slot sets of the entries of one field table are disjoint (WFClass, assumed)"""
+    return VBool(z3.Function('owns', T.I, T.S, T.B)(f.z, n.z))
+
+
+def sf_same(ev, a, b):
+    """identity / structural identity of two values (z3 equality of their Val terms)"""
+    for x in (a, b):
+        if isinstance(x, VFunc) and x.tag == 'lambda':
+            return VBool(a is b)     # a closure created by the code is a fresh object
+    return VBool(to_val(a) == to_val(b))
 
 
 SPECFUNCS = {k[3:]: v for k, v in list(globals().items()) if k.startswith('sf_')}
